@@ -444,8 +444,8 @@ def mutations(base, label, sites="all"):
     # a group / component / message emptied of all its members: the generator may refuse it (it does, for groups
     # and components); if it accepts it, the statement applies
     for ci, (cname, conts) in enumerate(containers(b)):
-        if cname in ("header", "trailer") or (sites != "all" and ci % sites != 0):
-            continue
+        if not cname.startswith("group:") or (sites != "all" and ci % sites != 0):
+            continue  # (groups only: the generator refuses an empty group; what an empty component or message means is not stated)
         if any(m.get("name") in PIPELINE for m in members(conts[0])):
             continue
         s = b.clone()
@@ -888,6 +888,8 @@ def run_variant(c, idx, v):
                 cls = opclass(v.name)
                 if "does not implement messages." in outp and "type-map" in v.name:
                     cls = "type-map-changes-pipeline-field-type"
+                if "does not implement messages." in outp and "missing method" in outp and "remove-pipeline" in v.name:
+                    cls = "pipeline-field-removed-from-session-message"
                 viol.append(("generated-package-does-not-compile:" + cls, outp[-1500:]))
             else:
                 viol.append(("api-mismatch:" + opclass(v.name) + ":" + errclass(out), out[-1800:]))
